@@ -121,6 +121,17 @@ Definition vcause (p : vparams) (s : vst) (r : vreport) : Z :=
          else if vdynamics p s r then 3 else 0
        end.
 
+(* A report from which no VAM can be handed over: building the message from the report
+   raises, or the LDM adapter, the encoder or the lower layer raises in send_next_vam.
+   location_service_callback is left through the exception before any of the last-VAM state
+   is written (send_next_vam writes it after btp_data_request, the low-frequency time
+   included), so such a report acts like one received while the gate is closed. *)
+Definition vfailed (r : vreport) : vreport :=
+  {| vr_ts := vr_ts r; vr_now := vr_now r; vr_gate := false; vr_clop := vr_clop r;
+     vr_pos := vr_pos r; vr_latcode := vr_latcode r; vr_loncode := vr_loncode r;
+     vr_speed := vr_speed r; vr_speedcode := vr_speedcode r;
+     vr_track := vr_track r; vr_trackcode := vr_trackcode r |}.
+
 Definition vstep (p : vparams) (s : vst) (r : vreport) : vst * list vout :=
   if vcause p s r =? 0 then (s, []) else vsend p s r.
 
@@ -134,8 +145,8 @@ Fixpoint vrun (p : vparams) (s : vst) (rs : list vreport) : vst * list vout :=
   end.
 
 (* ---- driver ------------------------------------------------------------ *)
-(* report: ts now gate clop hp lan lad lon lod latcode loncode hs sn sd speedcode ht tn td trackcode
-           (19 integers)
+(* report: ts now gate clop hp lan lad lon lod latcode loncode hs sn sd speedcode ht tn td trackcode fail
+           (20 integers; fail = 1: the hand-over of a VAM built from this report was seen to fail)
    result: for every VAM  idx lf gdt cause *)
 Definition vmkq (n d : Z) : Q := Qmake n (Z.to_pos d).
 
@@ -145,12 +156,13 @@ Fixpoint vdrive (p : vparams) (fuel : nat) (idx : Z) (s : vst) (a : list Z) : li
   | S fuel' =>
     match a with
     | ts :: now :: gate :: clop :: hp :: lan :: lad :: lon :: lod :: latc :: lonc
-         :: hs :: sn :: sd :: spc :: ht :: tn :: td :: trc :: rest =>
-      let r := {| vr_ts := ts; vr_now := now; vr_gate := z2b gate; vr_clop := z2b clop;
+         :: hs :: sn :: sd :: spc :: ht :: tn :: td :: trc :: fl :: rest =>
+      let r0 := {| vr_ts := ts; vr_now := now; vr_gate := z2b gate; vr_clop := z2b clop;
                   vr_pos := if z2b hp then Some (vmkq lan lad, vmkq lon lod) else None;
                   vr_latcode := latc; vr_loncode := lonc;
                   vr_speed := if z2b hs then Some (vmkq sn sd) else None; vr_speedcode := spc;
                   vr_track := if z2b ht then Some (vmkq tn td) else None; vr_trackcode := trc |} in
+      let r := if z2b fl then vfailed r0 else r0 in
       let c := vcause p s r in
       let '(s1, o) := vstep p s r in
       match o with
